@@ -4,6 +4,8 @@ from lib.common import *
 
 
 def main(tier, replay=None):
+    if replay:
+        return vk_replay("C06", replay)
     res = Result("C06", tier, "exploration")
     rd = rundir("C06")
     src = scratch_build(rd, "asan")
@@ -14,11 +16,18 @@ def main(tier, replay=None):
     else:
         runs = [("alpha{CR,LF,.,a}", "0 12 9"), ("alpha{CR,LF,.,a,R}", "1 10 7"), ("alpha{LF,.,0xFF,a,CR}", "2 10 7")]
     res.run_parallel([("%s %s" % (exe, args), fam) for fam, args in runs])
+    # program level: the same messages as real queue files sent by the real qmail-remote process to a scripted SMTP server
+    vk_build()
+    plain = scratch_build(rd, "plain")
+    vk_run(res, "remote", plain, rd, "0,0,0,0", 0, 1500, "qmail-remote-process-messages", opts=["family=msg", "maxlen=%d" % (5 if tier == "quick" else 7)])
     res.rule = ("every byte string over the alphabet up to the length bound is fed to the real blast() of "
                 "qmail-remote.c (whole, in every chunking of reads up to the chunking bound, and with a read error "
                 "at every offset); non-trivial = contains a CR or a '.' at a line start (the cases where "
-                "stuffing / CR handling is exercised); distinct counted per input string")
+                "stuffing / CR handling is exercised); distinct counted per input string; program level (VK): every message over {CR,LF,.,a} "
+                "up to length %d plus 17 hand-written ones (NUL, 8-bit, 998/1500-byte lines, no final newline) as a queue file on standard input "
+                "of the real qmail-remote process (resolver, connect and server scripted): the DATA payload that reaches the server must be one "
+                "dot-terminated stream that decodes to the message's lines; incomplete last lines are refused without the end-of-data mark" % (5 if tier == "quick" else 7))
     res.assumptions = ["reference receiver seq/ref_smtp.h implements RFC 5321 4.5.2",
                        "bare CR, CR LF and LF each end a line of the stored message (fixed by tests/unittest_qmail-remote.c)"]
-    res.require_nonzero("evaluations", "distinct_nontrivial", "completed", "aborted")
+    res.require_nonzero("evaluations", "distinct_nontrivial", "completed", "aborted", "messages_decoded_from_wire")
     return res.finish()
